@@ -1,6 +1,9 @@
 (* C02 -- every accepted interface is well formed (cfg_wf), and cfg_wfb reflects cfg_wf. *)
 From Coq Require Import Lia ZifyBool Btauto Permutation.
-From CR Require Import Model.Config Model.ConfigSpec Model.ConfigWf Proofs.ConfigSpec.
+From CR Require Import Model.Config.
+From CR Require Import Model.ConfigSpec.
+From CR Require Import Model.ConfigWf.
+From CR Require Import Proofs.ConfigSpec.
 Local Open Scope Z_scope.
 
 Ltac unfold_units := unfold infinity, hour, minute, sec, ms, us, ns in *.
